@@ -354,6 +354,11 @@ func (c *Ctx) sites(f *ssa.Function, env Env, chk *GCheck, depth int) []gsite {
 					if lk, g := membershipAccessor(x); lk != nil && chk.MatchOK(c, lk, c.calleeEnvV(&x.Call, g, env, x)) {
 						match = true
 					}
+					// … or a lookup accessor that reports a miss as an error (`func keyFor(a) (K, error)`): it succeeds exactly when
+					// the lookup found the key
+					if lk, g := c.lookupAccessorErr(x); !match && lk != nil && chk.MatchOK(c, lk, c.calleeEnvV(&x.Call, g, env, x)) {
+						match = true
+					}
 				}
 				if !match && !chk.NoDescend && depth < 8 {
 					cs := c.Callees(&x.Call)
@@ -2108,5 +2113,46 @@ func membershipAccessor(cl *ssa.Call) (*ssa.Lookup, *ssa.Function) {
 	if _, ok := lk.Index.(*ssa.Parameter); !ok {
 		return nil, nil
 	}
+	return lk, g
+}
+
+// lookupAccessorErr: the call is to a module function (value, error) that makes one comma-ok lookup, hands back the
+// looked-up value on success and succeeds only when the lookup found the key; returns that lookup and the function.
+func (c *Ctx) lookupAccessorErr(cl *ssa.Call) (*ssa.Lookup, *ssa.Function) {
+	g := cl.Call.StaticCallee()
+	if g == nil || !inModule(g) || g.Blocks == nil || len(g.Blocks) > 4 || !returnsError(g) || g.Signature.Results().Len() != 2 {
+		return nil, nil
+	}
+	if r, ok := c.lookupAccMemo[g]; ok {
+		return r, g
+	}
+	if c.lookupAccMemo == nil {
+		c.lookupAccMemo = map[*ssa.Function]*ssa.Lookup{}
+	}
+	c.lookupAccMemo[g] = nil
+	var lk *ssa.Lookup
+	n := 0
+	forEachInstr(g, func(in ssa.Instruction) {
+		if x, ok := in.(*ssa.Lookup); ok {
+			n++
+			if x.CommaOk {
+				lk = x
+			}
+		}
+	})
+	if lk == nil || n != 1 {
+		return nil, g
+	}
+	srs := successReturns(g)
+	if len(srs) != 1 {
+		return nil, g
+	}
+	if ex, ok := returnedValue(srs[0], 0).(*ssa.Extract); !ok || ex.Tuple != ssa.Value(lk) || ex.Index != 0 {
+		return nil, g
+	}
+	if okG, _, k := c.Guard(g, nil, &GCheck{Name: "the lookup found the key", NoDescend: true, MatchOK: func(c *Ctx, v ssa.Value, env Env) bool { return v == ssa.Value(lk) }}, nil); !okG || k == 0 {
+		return nil, g
+	}
+	c.lookupAccMemo[g] = lk
 	return lk, g
 }
